@@ -47,7 +47,7 @@ def universes():
     days = list(pd.date_range('2001-02-27', periods=6, freq='D'))
     mixed = [(1, 2), 'x', 3, 2.5, frozenset({1}), -7]
     return {
-        'list[int]': (ints, list), 'tuple[int]': (ints, tuple), 'range': (ints, None), 'list[str]': (strs, list),
+        'list[int]': (ints, list), 'tuple[int]': (ints, tuple), 'range': (ints, None), 'range-stepped': (ints, None), 'list[str]': (strs, list),
         'list[mixed]': (mixed, list), 'ndarray[int]': (ints, np.array), 'ndarray[str]': (strs, np.array),
         'pd.Index[int]': (ints, pd.Index), 'pd.Index[str]': (strs, pd.Index), 'pd.PeriodIndex[Q]': (per, pd.PeriodIndex),
         'pd.PeriodIndex[Y]': (ann, pd.PeriodIndex), 'pd.DatetimeIndex': (days, pd.DatetimeIndex),
@@ -55,6 +55,15 @@ def universes():
 
 
 def build_span(kind, labels, make, idx):
+    if kind == 'range-stepped':
+        # stepped / descending ranges: any index run that is an arithmetic progression (two stepped ranges of the same step need
+        # not be in phase: they may share no label at all)
+        if len(idx) < 2:
+            return range(labels[idx[0]], labels[idx[0]] + 1) if idx else range(0)
+        d = idx[1] - idx[0]
+        if d == 0 or any(idx[i + 1] - idx[i] != d for i in range(len(idx) - 1)):
+            return None
+        return range(labels[idx[0]], labels[idx[0]] + d * len(idx), d)
     if kind == 'range':
         # only contiguous ascending index runs can be a range
         if list(idx) != list(range(idx[0], idx[0] + len(idx))) if idx else False:
@@ -305,6 +314,16 @@ def run_shard(ctx):
                     # a string fill for numeric variables cannot be cast: the statement does not define it
                     continue
                 one_case(ctx, cls_name, C[cls_name], kind, labels, make, old, new, opts)
+    # every pair of stepped / descending ranges over the label universe (arithmetic progressions of 2..4 labels, steps -3..3)
+    labels, make = U['range-stepped']
+    aps = [tuple(range(a, a + d * k, d)) for a in range(6) for d in (-3, -2, -1, 1, 2, 3) for k in (2, 3, 4) if all(0 <= x < 6 for x in range(a, a + d * k, d))]
+    for i, old in enumerate(aps):
+        for j, new in enumerate(aps):
+            idx += 1
+            if not ctx.mine(idx) or (ctx.quick and (i + j) % 3):
+                continue
+            ctx.count('stepped_range_pairs')
+            one_case(ctx, 'model' if (i + j) % 2 else 'container', C['model' if (i + j) % 2 else 'container'], 'range-stepped', labels, make, old, new, {} if (i * j) % 3 else {'fill_value': 7})
     # exhaustive small block: list[int] x container/model, lengths <= 2, every option set
     for old in [o for o in olds if len(o) <= 2]:
         for new in [n for n in news if len(n) <= 2]:
